@@ -312,7 +312,10 @@ func checkC15(c *Ctx) {
 		c.Check(Dominates(hook, next), "R2", "hook-before-next", p.InstrPos(hook), "hook invoked on every path before Next", "the round-close hook is not invoked before the next step on every path")
 		// dispatched for the round-closed event
 		disp := false
-		for _, f := range p.Methods(gt) {
+		for _, f := range p.Funcs { // the table may be built by the constructor
+			if !inModule(p, f) || f.Pkg == nil || f.Pkg.Pkg != gt.Obj().Pkg() {
+				continue
+			}
 			for _, b := range f.Blocks {
 				for _, in := range b.Instrs {
 					if mu, ok := in.(*ssa.MapUpdate); ok {
